@@ -45,7 +45,8 @@ Print Assumptions C20_join_split.
 
 (* Decode (Encode a) at byte level: for every normalised header tree h, every body and every signature text, the
    serialized form (header lines, blank line + body if the body is not empty, blank line, signature) is split and
-   parsed back to exactly (h, body, signature).  Constraints of the format, all of them hypotheses: the lines of header
+   parsed back to exactly (h, body, signature), and the signed content kept with the assertion is the original content,
+   so that Encode of the decoded assertion is the original byte string (C20_reencode_identity).  Constraints of the format, all of them hypotheses: the lines of header
    strings contain no newline byte, the header text is valid UTF-8, the signature has no blank line inside and does not
    start with a newline.  The body is arbitrary (blank lines and trailing newlines included).  That assemble then accepts
    the parts (body-length header = length of the body, type-specific checks) is outside the model. *)
@@ -53,9 +54,17 @@ Theorem C20_assertion_roundtrip : forall h body sig,
   norm_headers h = true -> h <> [] ->
   forallb no_nl (format_headers h) = true -> utf8_valid (join_lines (format_headers h)) = true ->
   cut_first_nlnl sig = None -> has_prefix [NL] sig = false ->
-  decode_parts (encode_assertion h body sig) = Ok (mkParts h body sig).
+  decode_parts (encode_assertion h body sig) = Ok (mkParts h body sig (content_of (join_lines (format_headers h)) body)).
 Proof. exact assertion_roundtrip. Qed.
 Print Assumptions C20_assertion_roundtrip.
+
+Theorem C20_reencode_identity : forall h body sig,
+  norm_headers h = true -> h <> [] ->
+  forallb no_nl (format_headers h) = true -> utf8_valid (join_lines (format_headers h)) = true ->
+  cut_first_nlnl sig = None -> has_prefix [NL] sig = false ->
+  exists p, decode_parts (encode_assertion h body sig) = Ok p /\ encode (p_content p) (p_sig p) = encode_assertion h body sig.
+Proof. exact reencode_identity. Qed.
+Print Assumptions C20_reencode_identity.
 
 (* bufio.Reader.Peek(n) over a reader that hands out its data in arbitrary pieces returns the first n of the bytes still
    to come, or all of them with EOF if there are fewer - whatever the pieces: this is the [peek] the stream decoder model
@@ -137,7 +146,8 @@ Example C20_ex_roundtrip : parse_headers (join_lines (format_headers C20_ex_tree
 Proof. vm_compute. reflexivity. Qed.
 Example C20_ex_assertion :
   decode_parts (encode_assertion C20_ex_tree (bs "body" ++ [10; 10] ++ bs "more" ++ [10]) (bs "AcLBXAQ=" ++ [10]))
-  = Ok (mkParts C20_ex_tree (bs "body" ++ [10; 10] ++ bs "more" ++ [10]) (bs "AcLBXAQ=" ++ [10])).
+  = Ok (mkParts C20_ex_tree (bs "body" ++ [10; 10] ++ bs "more" ++ [10]) (bs "AcLBXAQ=" ++ [10])
+                (content_of (join_lines (format_headers C20_ex_tree)) (bs "body" ++ [10; 10] ++ bs "more" ++ [10]))).
 Proof. vm_compute. reflexivity. Qed.
 Example C20_ex_dropped : parse_header_lines (format_headers dropped_tree) = Ok [(bs "foo", Lst [Str [bs "a"]])].
 Proof. vm_compute. reflexivity. Qed.
